@@ -61,6 +61,43 @@ Q2,0.5,QUERY,op1,,1.5,const,,2
 """)
 
 
+# an external policy over the REST bridge that packs operators of THREE pipelines into one container and then lets the
+# reported pipeline id of running containers decide which pipeline is served next: whatever the bridge reports for such
+# a container has to be the same in every process
+CONFIGS["rest-mixed-container"] = dict(
+    duration=3.0, ticks_per_second=10, scheduler_algo="rest", num_pools=1, cpus_per_pool=4, ram_gb_per_pool=64, multi_operator_containers=True,
+    rest_poll_interval=0, rest_scheduler_addr="stub.invalid:1", _rest_policy="mixed",
+    _csv="""pipeline_id,arrival_seconds,priority,operator_id,parents,baseline_cpu_seconds,cpu_scaling,memory_gb,storage_read_gb
+orders,0.0,BATCH_PIPELINE,op1,,0.2,const,1,0
+orders,,,op2,op1,0.3,const,1,0
+billing,0.0,BATCH_PIPELINE,op1,,0.2,const,1,0
+billing,,,op2,op1,0.5,const,1,0
+audit,0.0,BATCH_PIPELINE,op1,,1.5,const,1,0
+""")
+
+
+def mixed_policy(pay, state):
+    """reply to one /schedule request (sees the request only)"""
+    pls = pay["new_pipelines"] + pay["other_pipelines"]
+    pool = pay["pools"][0]
+    none = dict(suspensions=[], assignments=[])
+    if pool["avail_cpu"] < 1 or pool["avail_ram_gb"] < 4:
+        return none
+    if not state.get("packed") and len(pay["new_pipelines"]) >= 3:
+        state["packed"] = True
+        first = [next(o for o in pl["operators"] if o["parents_complete"] and o["is_assignable_state"]) for pl in pay["new_pipelines"][:3]]
+        return dict(suspensions=[], assignments=[dict(operator_ids=[o["id"] for o in first], cpu=1, ram_gb=8, pool_id=0, priority=pay["new_pipelines"][0]["priority"],
+                                                      is_resume=False, force_run=False)])
+    busy = [c.get("pipeline_id") for c in pool["active_containers"]]
+    ready = [(pl, o) for pl in pls for o in pl["operators"] if o["is_assignable_state"] and o["parents_complete"]]
+    state["calls"] = state.get("calls", 0) + 1
+    if not ready or state["calls"] < 5:      # wait until both second operators are ready: then the order is a real choice
+        return none
+    ready.sort(key=lambda po: 1 if po[0]["pipeline_id"] in busy else 0)    # pipelines reported as running somewhere go last
+    pl, o = ready[0]
+    return dict(suspensions=[], assignments=[dict(operator_ids=[o["id"]], cpu=1, ram_gb=4, pool_id=0, priority=pl["priority"], is_resume=False, force_run=False)])
+
+
 def main():
     req = json.loads(sys.argv[1])
     from mc import boot
@@ -117,6 +154,27 @@ def main():
         try:
             cfg = dict(CONFIGS[name])
             csv_text = cfg.pop("_csv", None)
+            policy = cfg.pop("_rest_policy", None)
+            restore = None
+            if policy is not None:
+                import requests as _rq
+                orig_send = _rq.adapters.HTTPAdapter.send
+                pstate = {}
+
+                def fake_send(adapter, request, _o=orig_send, **kw):
+                    body = request.body
+                    text = body.decode("utf-8") if isinstance(body, (bytes, bytearray)) else (body or "")
+                    reply = {} if request.url.endswith("/init") else mixed_policy(json.loads(text), pstate)
+                    resp = _rq.models.Response()
+                    resp.status_code = 200
+                    resp._content = json.dumps(reply).encode("utf-8")
+                    resp.headers["Content-Type"] = "application/json"
+                    resp.encoding = "utf-8"
+                    resp.url = request.url
+                    resp.request = request
+                    return resp
+                _rq.adapters.HTTPAdapter.send = fake_send
+                restore = lambda: setattr(_rq.adapters.HTTPAdapter, "send", orig_send)
             if csv_text is not None:
                 import io
                 from eudoxia.workload.csv_io import CSVWorkloadReader
@@ -129,6 +187,8 @@ def main():
             stats, err = None, f"{type(e).__name__}: {e}"
         finally:
             Executor.run_one_tick, Scheduler.run_one_tick = o_exec, o_sched
+            if restore is not None:
+                restore()
         out.append(dict(config=name, log=log, stats=stats, error=err))
     if req.get("digest"):
         for o in out:
